@@ -257,8 +257,9 @@ namespace BitSerializer::Convert::Detail
 			uint64_t val;
 			if constexpr (std::is_signed_v<TRep>)
 			{
-				constexpr uint64_t maxI64Negative = 9223372036854775808u;
-				val = timePart.count() == LLONG_MIN ? maxI64Negative : static_cast<uint64_t>(std::abs(timePart.count()));
+				// Negate in unsigned arithmetic: std::abs overflows for the minimum of every signed representation
+				const auto count = static_cast<int64_t>(timePart.count());
+				val = count < 0 ? 0u - static_cast<uint64_t>(count) : static_cast<uint64_t>(count);
 			}
 			else {
 				val = timePart.count();
